@@ -8,6 +8,8 @@ import Proofs.Lemmas.C16Offs
 import Proofs.Lemmas.C16Build
 import Proofs.Lemmas.C16Lines
 import Model.Tab.Render
+import Proofs.Lemmas.C16Render
+import Proofs.Lemmas.C16HeaderOps
 
 namespace C16
 open Tab.TextTab
@@ -241,6 +243,79 @@ theorem text_csv_same_view_partial (exp : Nat) :
   | zero => simp
   | succ n => simp; omega
 
+open Tab.Render in
+/-- **text_csv_same_view** (measurement rows, full strength): let `(label, cells)` be a row of the
+cells view. Whatever table ToText has built so far (`t`) and whatever is in its warning list
+(`wl`), the calls ToText makes for the row never panic, and BOTH renderings show the same view:
+ * the label is the texttab cell at column 0 of the new row and field 0 of the CSV record;
+ * for every cell `c` present at logical column `i`: the centre is the right-aligned texttab
+   cell at `textStartCol i` (scaled spelling) and CSV field `csvStartCol i` (unscaled spelling of
+   the same number — their numeric agreement is C10's and the S oracle's business); the range is
+   the right-aligned cell with margin " ± " at `textStartCol i + 1` and CSV field
+   `csvStartCol i + 1`, the same string;
+ * if `i > 0` and the cell has a baseline: the delta is at `textStartCol i + 3` / CSV field
+   `csvStartCol i + 2` (same string), the p-value string at `textStartCol i + 4` in parentheses /
+   CSV field `csvStartCol i + 3`.
+Cells absent from the view contribute nothing to either rendering (`placedRow`, `csvDataCols`
+skip them), and no field or cell written for one column is overwritten by another
+(`csvDataCols_fields`, `dataCols_cells`). The two presentation differences are outside the rows:
+the summary row (`toTextOps`: only when `rows.length > 1`; `toCsv`: always) and the warnings
+(text: footnote cells at `+2`/`+5` and `footnoteLines`; CSV: `csvWarn` lines, second stream). -/
+theorem text_csv_same_view (wl : List Bytes) (t : Table) (label : Bytes)
+    (cells : List (Option DataCell)) (rowNo : Nat) (w : List Bytes) :
+    ∃ t', runOps t (dataRowOps wl (label, cells)).2 = some t' ∧
+      mkCell t.row.curRow 0 label [] ∈ t'.cells ∧
+      (csvDataCols rowNo [label] w 0 cells).1.getD 0 [] = label ∧
+      ∀ i c, cells[i]? = some (some c) →
+        mkCell t.row.curRow (textStartCol i) c.centerText [.right] ∈ t'.cells ∧
+        (csvDataCols rowNo [label] w 0 cells).1.getD (csvStartCol i) [] = c.centerCsv ∧
+        mkCell t.row.curRow (textStartCol i + 1) c.range [.right, .margin pmMargin] ∈ t'.cells ∧
+        (csvDataCols rowNo [label] w 0 cells).1.getD (csvStartCol i + 1) [] = c.range ∧
+        ∀ d, i > 0 → c.delta = some d →
+          mkCell t.row.curRow (textStartCol i + 3) d.delta [.right] ∈ t'.cells ∧
+          (csvDataCols rowNo [label] w 0 cells).1.getD (csvStartCol i + 2) [] = d.delta ∧
+          mkCell t.row.curRow (textStartCol i + 4) ([0x28] ++ d.p ++ [0x29]) [] ∈ t'.cells ∧
+          (csvDataCols rowNo [label] w 0 cells).1.getD (csvStartCol i + 3) [] = d.p := by
+  -- text side: Row(), Cell(label), then the columns
+  let t2 := (t.row).span 1 label []
+  have hcur : t2.curCol ≤ textStartCol 0 := by simp [t2, Table.span, Table.row, textStartCol]
+  obtain ⟨t', h1, h2, h3⟩ := dataCols_cells cells wl 0 t2 hcur
+  have hrow : t2.curRow = t.row.curRow := rfl
+  have hlab : mkCell t.row.curRow 0 label [] ∈ t2.cells := by
+    simp [t2, Table.span, Table.row, mkCell]
+  have hcsv := csvDataCols_fields rowNo cells [label] w 0 (by simp [csvStartCol])
+  refine ⟨t', ?_, ?_, ?_, ?_⟩
+  · simp only [dataRowOps]
+    rw [show [Op.row, Op.span 1 label []] ++ (dataColsOps wl 0 cells).2
+          = Op.row :: Op.span 1 label [] :: (dataColsOps wl 0 cells).2 from rfl,
+      runOps_cons, Table.step, Option.bind_some, runOps_cons, Table.step, Option.bind_some]
+    exact h1
+  · rw [h2]; exact List.mem_append_left _ hlab
+  · have := hcsv.1 0 (by simp)
+    simpa using this
+  · intro i c hi
+    obtain ⟨wl', hmem⟩ := placedRow_mem t2.curRow cells wl 0 i c hi
+    simp only [Nat.zero_add] at hmem
+    have hin : ∀ x ∈ placed t2.curRow (textStartCol i) (cellStrings wl' i c), x ∈ t'.cells := by
+      intro x hx; rw [h2]; exact List.mem_append_right _ (hmem x hx)
+    have hcr := placed_center_range t2.curRow (textStartCol i) wl' i c
+    have hf := hcsv.2 i c hi
+    simp only [Nat.zero_add] at hf
+    have hlen2 : 2 ≤ (csvStrings i c).length := by unfold csvStrings; simp
+    refine ⟨hin _ hcr.1, ?_, hin _ hcr.2, ?_, ?_⟩
+    · have := hf 0 (by omega)
+      simpa [csvStrings] using this
+    · have := hf 1 (by omega)
+      simpa [csvStrings] using this
+    · intro d hpos hd
+      have hdl := placed_delta t2.curRow (textStartCol i) wl' i c d hpos hd
+      have hlen4 : (csvStrings i c).length = 4 := by unfold csvStrings; simp [hpos, hd]
+      refine ⟨hin _ hdl.1, ?_, hin _ hdl.2, ?_⟩
+      · have := hf 2 (by omega)
+        simpa [csvStrings, hpos, hd] using this
+      · have := hf 3 (by omega)
+        simpa [csvStrings, hpos, hd] using this
+
 /-! ### keyheader_partition -/
 
 open Tab.KeyHeader in
@@ -278,6 +353,38 @@ theorem keyheader_level_cover (keys : List (List Bytes)) (nf k : Nat) (hk : k < 
   have := level_tiles keys k fuel 1 (newKeyHeader keys (fuel + k + 1)) 0 keys.length
     (by simpa using hg.1) (fun x hx => (hg.2.2 x hx).2.2)
   exact this
+
+open Tab.KeyHeader Tab.Render in
+/-- **header_cells_span_keys** (full strength): ToText's header loop over the KeyHeader of the
+column keys, started on ANY texttab table `t`, never panics (no `Col` to an earlier column) and
+adds exactly `hdrCells`: one row per tree level and on it, for every node of that level, one
+centred cell with margin " │ " whose value is the node's value, whose first physical column is
+`textStartCol node.Start` and whose span ends at `textStartCol (node.Start + node.Len)` — exactly
+the physical columns of the logical columns (keys) the node covers — followed by the right-edge
+cell. With `keyheader_partition` (the node's value is the common field value of the keys it
+covers) and `keyheader_level_cover` (the nodes of a level tile all columns) this is: each header
+cell spans exactly the columns of the keys it labels, every column is under exactly one header
+cell per level. -/
+theorem header_cells_span_keys (keys : List (List Bytes)) (nf : Nat) (t : Table) :
+    ∃ t', runOps t (headerOps (textStartCol (keys.length + 1)) (nf + 1) (newKeyHeader keys nf)) = some t' ∧
+      t'.cells = t.cells ++
+        hdrCells (textStartCol (keys.length + 1)) (nf + 1) t.row.curRow (newKeyHeader keys nf) := by
+  apply header_run _ keys.length (textStartCol_mono (Nat.le_succ _))
+  intro k hk
+  by_cases hkn : k < nf
+  · exact keyheader_level_cover keys nf k hkn
+  · exfalso
+    apply hk
+    have hg := keyheader_partition keys nf
+    cases nf with
+    | zero =>
+      simp only [Good] at hg
+      rw [hg]; exact level_nil k
+    | succ f =>
+      simp only [Good] at hg
+      have hd := level_depth keys f (newKeyHeader keys (f + 1)) (fun x hx => ⟨1, (hg.2.2 x hx).2.2⟩)
+      obtain ⟨b, rfl⟩ : ∃ b, k = (f + 1) + b := ⟨k - (f + 1), by omega⟩
+      rw [level_add, hd]; exact level_nil b
 
 /-- non-trivial instance: the example of the doc comment of keyheader.go -/
 example : (Tab.KeyHeader.level (Tab.KeyHeader.newKeyHeader
